@@ -5,6 +5,7 @@ package c14
 
 import (
 	"errors"
+	"reflect"
 	"sort"
 	"strconv"
 	"strings"
@@ -214,16 +215,38 @@ func writeM(sb *strings.Builder, n *node) {
 	}
 }
 
-func canonR(v any) string {
-	var sb strings.Builder
-	writeR(&sb, v)
-	return sb.String()
+// canonizer computes canonical texts of real values. Within one canonizer
+// the text of a container is computed once per object (values are compared
+// at one point in time, and nested values share most of their structure).
+type canonizer struct{ memo map[uintptr]string }
+
+func newCanonizer() *canonizer { return &canonizer{memo: map[uintptr]string{}} }
+
+func canonR(v any) string { return newCanonizer().canon(v) }
+
+func (cz *canonizer) canon(v any) string {
+	switch v.(type) {
+	case string:
+		return strconv.Quote(v.(string))
+	case vector.Vector, hashmap.Map:
+		rv := reflect.ValueOf(v)
+		if rv.Kind() != reflect.Ptr {
+			return cz.container(v)
+		}
+		p := rv.Pointer()
+		if s, ok := cz.memo[p]; ok {
+			return s
+		}
+		s := cz.container(v)
+		cz.memo[p] = s
+		return s
+	}
+	return "?" + vals.ReprPlain(v)
 }
 
-func writeR(sb *strings.Builder, v any) {
+func (cz *canonizer) container(v any) string {
+	var sb strings.Builder
 	switch v := v.(type) {
-	case string:
-		sb.WriteString(strconv.Quote(v))
 	case vector.Vector:
 		sb.WriteByte('[')
 		i := 0
@@ -231,7 +254,7 @@ func writeR(sb *strings.Builder, v any) {
 			if i > 0 {
 				sb.WriteByte(' ')
 			}
-			writeR(sb, it.Elem())
+			sb.WriteString(cz.canon(it.Elem()))
 			i++
 		}
 		sb.WriteByte(']')
@@ -249,11 +272,18 @@ func writeR(sb *strings.Builder, v any) {
 			} else {
 				ks = "?" + vals.ReprPlain(k)
 			}
-			var eb strings.Builder
-			writeR(&eb, e)
-			es = append(es, kv{ks, eb.String()})
+			es = append(es, kv{ks, cz.canon(e)})
+			// every key the iteration shows must also be found by lookup
+			if _, ok := v.Index(k); !ok {
+				es = append(es, kv{ks, "!lost-key"})
+			}
 		}
-		sort.Slice(es, func(i, j int) bool { return es[i].k < es[j].k })
+		sort.Slice(es, func(i, j int) bool {
+			if es[i].k != es[j].k {
+				return es[i].k < es[j].k
+			}
+			return es[i].v < es[j].v
+		})
 		sb.WriteByte('{')
 		for i, e := range es {
 			if i > 0 {
@@ -267,16 +297,8 @@ func writeR(sb *strings.Builder, v any) {
 		if len(es) != v.Len() {
 			sb.WriteString("!len=" + strconv.Itoa(v.Len()))
 		}
-		// every key the iteration shows must also be found by lookup
-		for it := v.Iterator(); it.HasElem(); it.Next() {
-			k, _ := it.Elem()
-			if _, ok := v.Index(k); !ok {
-				sb.WriteString("!lost-key=" + vals.ReprPlain(k))
-			}
-		}
-	default:
-		sb.WriteString("?" + vals.ReprPlain(v))
 	}
+	return sb.String()
 }
 
 // toReal builds the Elvish value of a model value.
